@@ -25,7 +25,7 @@ def _calc_overlapping_labels(
     Returns:
         _type_: _description_
     """
-    overlap_arr = prediction_arr.astype(np.uint32)
+    overlap_arr = prediction_arr.astype(np.uint64)
     max_ref = max(ref_labels) + 1
     overlap_arr = (overlap_arr * max_ref) + reference_arr
     overlap_arr[reference_arr == 0] = 0
